@@ -6,6 +6,7 @@ from ..runner import Result, Violation, case_hash
 ID = "C06"
 LEVEL = "exploration"
 LEVEL_TEXT = (
+    "Local exhaustive layer (all synteny triples over 4-5 families x 5 event patterns x both models) plus: "
     "For random binary inputs (<=5 object / <=5 species leaves) EVERY valid species mapping is enumerated independently of the package and "
     "each is evaluated by the package (node events, reconciliation, labelling and total cost, ordered and unordered, random valid labellings, "
     "arbitrary non-negative costs up to 5 or infinite transfer cost) and by an independent recount on parent chains and explicit lists; any "
